@@ -41,7 +41,7 @@ for sid in ids:
     finally:
         subprocess.run(['git', '-C', '/repo', 'worktree', 'remove', '--force', wt], capture_output=True)
         shutil.rmtree(wt, ignore_errors=True)
-    json.dump(res, open(os.path.join(d, 'result.json'), 'w'), indent=1)
+    json.dump(res, open(os.path.join(d, 'result_thorough.json' if tier == 'thorough' else 'result.json'), 'w'), indent=1)
     print('%-24s %s  caught=%s exit=%s %ss' % (sid, pid, res.get('caught'), res.get('exit'), res.get('seconds')))
     for l in res.get('violation_lines', []):
         print('     ', l)
